@@ -2,7 +2,8 @@
    (checked through the sound boolean checkers), with non-trivial conclusions. *)
 From Coq Require Import List ZArith Bool Lia.
 From TskVerif Require Import Base.Common C03.Model C03.Spec C03.ArrayProofs C03.AlleleProofs
-     C03.PaintProofs C03.DecodeProofs C03.TraverseProofs C03.RuleProofs C03.CheckProofs.
+     C03.PaintProofs C03.DecodeProofs C03.TraverseProofs C03.RuleProofs C03.CheckProofs C03.TotalProofs
+     C03.DfsTotalProofs.
 Import ListNotations.
 Open Scope Z_scope.
 
@@ -135,4 +136,14 @@ Proof.
   exact (decode_determined_l (par_of ex_parent) (zlen ex_parent) (default_fuel ex_tree) HT ex_site
            (default_fuel ex_tree) ex_tree ex_v1 (default_fuel ex_tree') ex_tree' ex_v1 r1 r2
            eq_refl eq_refl eq_refl TR TR' MR D1 D2).
+Qed.
+
+(* decode_total applies to the traversal-path variant (and the result is the Ok of ex_decode2) *)
+Example ex_total :
+  (exists r, decode ex_fuel ex_tree ex_v2 ex_site = Ok r) \/
+  (decode ex_fuel ex_tree ex_v2 ex_site = Err ERR_ALLELE_NOT_FOUND /\ exists ua, v_user_alleles ex_v2 = Some ua).
+Proof.
+  destruct (hyps_b_sound _ _ _ _ ex_hyps2) as (TR & MR & _ & HT & VN).
+  apply (decode_total_l (par_of ex_parent) (default_fuel ex_tree) ex_tree ex_v2 (zlen ex_parent)
+           (default_fuel ex_tree) ex_site TR HT VN); [vm_compute; discriminate | exact MR].
 Qed.
